@@ -1,12 +1,352 @@
-// Package c04 decides C04 (see /verif/DESIGN.md §7).
+// Package c04 decides C04: the sequencer node recovers from a crash at any point of block production.
 package c04
 
-import "verifharness/vk"
+import (
+	"bytes"
+	"context"
+	"fmt"
+	"strings"
+	"sync"
+	"time"
+
+	"verifharness/monitors"
+	"verifharness/vk"
+	"verifharness/world"
+)
 
 // Level is the verification level claimed for this property.
-const Level = "exploration"
+const Level = "fault_enumeration"
+
+// Case is one enumerated crash scenario.
+type Case struct {
+	Initial uint64 `json:"initial_height"`
+	Prefix  int    `json:"prefix_blocks"` // cleanly committed blocks before the step under test (-1: crash during the very first start)
+	Kind    string `json:"step_kind"`     // txs | empty | reuse
+	K       []int  `json:"crash_after_writes"`
+}
+
+func (c Case) key() string { return fmt.Sprintf("i%d p%d %s %v", c.Initial, c.Prefix, c.Kind, c.K) }
+
+type proc struct {
+	n   *world.Node
+	dsp *world.MemDS
+}
+
+type scenario struct {
+	r        *vk.Run
+	c        Case
+	ctx      context.Context
+	im       *world.Image
+	exec     *world.ExecDouble
+	seq      *world.SeqDouble
+	da       *world.DADouble
+	keys     world.Keys
+	lastT    time.Time
+	released []world.SeqResp
+	affected map[int]bool // responses released at a step that was cut by a crash
+	logs     [][]world.WriteRec
+	pub      map[uint64][]byte // header hashes handed to the broadcaster, by height
+	durable  map[uint64][]byte // header hashes at heights whose chain-height write was durable at some crash
+	seqN     int
+}
+
+func (s *scenario) start(crashAfter int) (*proc, error) {
+	dsp := world.NewMemDS(s.im)
+	if crashAfter >= 0 {
+		dsp.CrashAfter(crashAfter)
+	}
+	opts := world.NodeOpts{Aggregator: true, InitialHeight: s.c.Initial}
+	n, err := world.NewNode(s.ctx, opts, s.keys, dsp, s.exec, s.seq, s.da, nil)
+	if err != nil {
+		s.logs = append(s.logs, dsp.Log())
+		return &proc{nil, dsp}, err
+	}
+	return &proc{n, dsp}, nil
+}
+
+func (s *scenario) push(kind world.SeqKind, mark bool) {
+	s.lastT = s.lastT.Add(time.Second)
+	r := world.SeqResp{Kind: kind, Time: s.lastT}
+	if kind == world.SeqTxs {
+		s.seqN++
+		r.Txs = [][]byte{[]byte(fmt.Sprintf("tx-%d-a", s.seqN)), []byte(fmt.Sprintf("tx-%d-b", s.seqN))}
+	}
+	r.ID = s.seq.Push(r)
+	s.released = append(s.released, r)
+	if mark {
+		s.affected[r.ID] = true
+	}
+}
+
+// end records what a process leaves behind when it dies or is stopped.
+func (s *scenario) end(p *proc) {
+	if p.n != nil {
+		s.logs = append(s.logs, p.dsp.Log())
+		for _, h := range p.n.HB.Items() {
+			if _, ok := s.pub[h.Height()]; !ok {
+				s.pub[h.Height()] = h.Hash()
+			}
+		}
+	}
+	// heights covered by a durable chain-height record
+	if raw, ok := s.im.Get("/t"); ok && len(raw) == 8 {
+		var t uint64
+		for i := 7; i >= 0; i-- {
+			t = t<<8 | uint64(raw[i])
+		}
+		st := world.NewMemDS(s.im)
+		for h := s.c.Initial; h <= t; h++ {
+			if _, ok := s.durable[h]; ok {
+				continue
+			}
+			if b, ok := st.Image().Get(fmt.Sprintf("/h/%d", h)); ok {
+				s.durable[h] = append([]byte{}, b...)
+			}
+		}
+	}
+}
+
+func (s *scenario) witness() any {
+	var logs [][]string
+	for _, l := range s.logs {
+		logs = append(logs, world.FormatLog(l))
+	}
+	return map[string]any{"case": s.c, "write_logs_per_process": logs}
+}
+
+// runCase executes one scenario; it returns false if the chosen crash indices lie beyond the
+// writes the steps perform (the enumeration of that dimension is complete).
+func runCase(r *vk.Run, c Case) (crashedAt []bool) {
+	ctx := context.Background()
+	s := &scenario{r: r, c: c, ctx: ctx, im: world.NewImage(), exec: world.NewExecDouble(), seq: world.NewSeqDouble(),
+		da: world.NewDADouble(), keys: world.NewKeys("proposer"), lastT: world.GenesisTime,
+		affected: map[int]bool{}, pub: map[uint64][]byte{}, durable: map[uint64][]byte{}}
+	fail := func(clause, detail string) {
+		id := "C04-height-before-state"
+		if r.IsKnown(id) && strings.Contains(detail, "invalid height") {
+			r.Finding(id, clause, detail, s.witness())
+			return
+		}
+		r.Violation(clause, detail, s.witness())
+	}
+	crashedAt = make([]bool, len(c.K))
+	var p *proc
+	var err error
+	stage := 0 // index into c.K
+	if c.Prefix < 0 {
+		// crash during the very first start
+		p, err = s.start(c.K[0])
+		crashedAt[0] = p.dsp.Crashed()
+		stage = 1
+		if err == nil && !crashedAt[0] {
+			// started without reaching the crash point: continue as a running process below
+		} else {
+			if err != nil && !crashedAt[0] {
+				fail("startup", "NewManager failed on an empty store: "+err.Error())
+				return
+			}
+			s.end(p)
+			p = nil
+		}
+	} else {
+		p, err = s.start(-1)
+		if err != nil {
+			fail("startup", "NewManager failed on an empty store: "+err.Error())
+			return
+		}
+		// genesis block + prefix
+		_ = p.n.M.VerifPublishBlock(ctx)
+		for i := 0; i < c.Prefix; i++ {
+			if i%2 == 0 {
+				s.push(world.SeqTxs, false)
+			} else {
+				s.push(world.SeqEmpty, false)
+			}
+			if err := p.n.M.VerifPublishBlock(ctx); err != nil {
+				fail("clean-prefix", "clean step failed: "+err.Error())
+				return
+			}
+		}
+		if c.Kind == "reuse" {
+			// leave a pending block behind: execution fails once
+			s.push(world.SeqTxs, true)
+			s.exec.Script(world.ExecErr)
+			_ = p.n.M.VerifPublishBlock(ctx)
+		}
+	}
+	// the step under test, then the recovery steps: each crashes after c.K[stage] writes
+	for ; stage < len(c.K); stage++ {
+		if p == nil {
+			// restart with the crash armed from the first write of the new process
+			p, err = s.start(c.K[stage])
+			if err != nil {
+				if p.dsp.Crashed() {
+					crashedAt[stage] = true
+					p = nil
+					continue
+				}
+				fail("restart", fmt.Sprintf("NewManager failed after crash (stage %d): %v", stage, err))
+				return
+			}
+		} else {
+			p.dsp.CrashAfter(c.K[stage])
+		}
+		if stage == 0 || c.Prefix < 0 && stage == 1 {
+			switch c.Kind {
+			case "txs":
+				s.push(world.SeqTxs, true)
+			case "empty":
+				s.push(world.SeqEmpty, true)
+			}
+		} else {
+			s.push(world.SeqTxs, true)
+		}
+		_ = p.n.M.VerifPublishBlock(ctx)
+		crashedAt[stage] = p.dsp.Crashed()
+		s.end(p)
+		p = nil // the process is dead (or is stopped here: a clean stop is a crash after the last write)
+	}
+	// final clean process
+	p, err = s.start(-1)
+	if err != nil {
+		fail("restart", "NewManager failed on the image left by the crash: "+err.Error())
+		return
+	}
+	r.Hit("restart-ok")
+	h0, _ := p.n.Store.Height(ctx)
+	var stepErrs []string
+	for i := 0; i < 4; i++ {
+		s.push(world.SeqTxs, false)
+		if err := p.n.M.VerifPublishBlock(ctx); err != nil {
+			stepErrs = append(stepErrs, err.Error())
+		}
+	}
+	h1, _ := p.n.Store.Height(ctx)
+	r.Hit("resumes")
+	if h1 < h0+3 {
+		fail("resumes", fmt.Sprintf("after restart four clean steps raised the height only from %d to %d; step errors: %v", h0, h1, stepErrs))
+		return
+	}
+	s.end(p)
+	ex := monitors.ChainExpect{
+		ChainID: p.n.Genesis.ChainID, InitialHeight: c.Initial, Pub: s.keys.Pub, Addr: s.keys.Addr,
+		GenesisNano: uint64(world.GenesisTime.UnixNano()), Responses: s.released,
+		// a batch taken at a step that was cut by a crash may be lost (that is C11's subject, not C04's)
+		AllowSkip:    func(rp world.SeqResp, _ uint64) bool { return s.affected[rp.ID] },
+		CheckExecLog: true, Execs: s.exec.Execs(),
+	}
+	blocks, probs := monitors.CheckChain(ctx, p.n.Store, ex, r.Hit)
+	var viol []string
+	for _, pr := range probs {
+		viol = append(viol, pr.String())
+	}
+	byH := map[uint64]monitors.Block{}
+	for _, b := range blocks {
+		byH[b.Height] = b
+	}
+	for h, hash := range s.pub {
+		r.Hit("published-unchanged")
+		if b, ok := byH[h]; !ok || !bytes.Equal(b.HeaderHash, hash) {
+			viol = append(viol, fmt.Sprintf("block %d was published before a crash and is different (or missing) afterwards", h))
+		}
+	}
+	for h, raw := range s.durable {
+		r.Hit("committed-unchanged")
+		cur, ok := s.im.Get(fmt.Sprintf("/h/%d", h))
+		if !ok || !bytes.Equal(cur, raw) {
+			viol = append(viol, fmt.Sprintf("block %d was committed (chain height durable) before a crash and its stored header changed afterwards", h))
+		}
+	}
+	// chain-height writes over all processes: never down, never skipping
+	var hw []uint64
+	for _, l := range s.logs {
+		hw = append(hw, monitors.HeightWrites(l)...)
+	}
+	for i := 1; i < len(hw); i++ {
+		r.Hit("height-writes")
+		if hw[i] != hw[i-1]+1 {
+			viol = append(viol, fmt.Sprintf("chain-height writes across restarts are not consecutive: %v", hw))
+			break
+		}
+	}
+	if len(viol) > 0 {
+		fail("chain-after-recovery", strings.Join(viol, " ;; "))
+	}
+	return
+}
 
 // Run is the check entry point.
 func Run(r *vk.Run) {
-	r.Rule = "not implemented yet"
+	world.Silence()
+	r.Rule = "exhaustive enumeration: initial height {1,5} x cleanly committed prefix {first start,0..3 blocks} x step kind {txs, empty, reuse of a pending block} x crash after write k of the step (k = 0..W, W found by running until the step completes) x recovery (restart + step) crashed after write k2 (depth 2; depth 3 in thorough), then a clean restart, four clean steps and the chain oracle W1; plus kill-point enumeration of the cache writer (separate clause). non-trivial = at least one crash index strictly inside a step; distinct by (initial, prefix, kind, k...)"
+	r.Assume("MemDS double: a Put/Delete/Batch.Commit is atomic and durable once it returns; a crash loses exactly the writes not yet issued (process kill, not power loss)")
+	r.Assume("execution and sequencing layers are external processes that survive the node's crash (doubles keep their state)")
+	depth := 2
+	if !r.Quick() {
+		depth = 3
+	}
+	type tuple struct {
+		initial uint64
+		prefix  int
+		kind    string
+	}
+	var tuples []tuple
+	for _, initial := range []uint64{1, 5} {
+		for _, prefix := range []int{-1, 0, 1, 2, 3} {
+			kinds := []string{"txs", "empty", "reuse"}
+			if prefix < 0 {
+				kinds = []string{"txs"}
+			}
+			for _, kind := range kinds {
+				tuples = append(tuples, tuple{initial, prefix, kind})
+			}
+		}
+	}
+	// enum tries crash index k = 0,1,2,... at stage d until the stage completes without reaching the
+	// crash point (that last case is "crash after the last write"); it returns whether stage d-1 crashed.
+	var enum func(base Case, d int) []bool
+	enum = func(base Case, d int) []bool {
+		var last []bool
+		for k := 0; k < 60; k++ {
+			c := base
+			c.K = append(append([]int{}, base.K...), k)
+			var crashed []bool
+			if d == depth-1 {
+				crashed = runCase(r, c)
+				inside := false
+				for _, b := range crashed {
+					inside = inside || b
+				}
+				r.Eval(c.key(), inside, c)
+			} else {
+				crashed = enum(c, d+1)
+			}
+			last = crashed
+			if crashed == nil || !crashed[d] {
+				break
+			}
+		}
+		return last
+	}
+	var wg sync.WaitGroup
+	ch := make(chan tuple)
+	for w := 0; w < 14; w++ {
+		wg.Add(1)
+		go func() {
+			defer wg.Done()
+			for t := range ch {
+				enum(Case{Initial: t.initial, Prefix: t.prefix, Kind: t.kind}, 0)
+			}
+		}()
+	}
+	for _, t := range tuples {
+		ch <- t
+	}
+	close(ch)
+	wg.Wait()
+	r.SetExhaustive(true)
+	r.Set("crash_depth", depth)
+	r.Set("enumerated_tuples", len(tuples))
+	r.Require("restart-ok", 100)
+	cacheKillPoints(r)
 }
